@@ -28,7 +28,8 @@
 //   (s d <isbot> <istop> (iv <at(x) for v0..v6 b0..b2>) (cs <cst>...) <dj> (oth <1 if all other slots unchanged>) <extra>...)
 //   <dj> ::= (dj true) | (dj false) | (dj err) | (dj (cs <cst>...) ...)     to_disjunctive_linear_constraint_system
 //   <extra> ::= (ent <0|1>) after entails ; (sub <itv>) = operator[](x) after query
-//   followed by (leq (i j b) ...) for all ordered pairs of the final pool, (lat ...) flags.
+//   followed by (leq (i j b) ...) for all ordered pairs of the final pool, (lat ...) flags,
+//   (probe (j b neg <isbot> <istop> (iv ...) (cs ...)) ...) = what a copy of final value #j says after assume_bool(b, neg).
 #include "common.hpp"
 #include "crab_lang.hpp"
 
@@ -424,6 +425,7 @@ std::string eval(const Sx &q) {
     else if (k == "vpstart") pool[d].intrinsic("value_partition_start", {z_var_or_cst_t(var(vidx(op[2])))}, {});
     else if (k == "vpend") pool[d].intrinsic("value_partition_end", {z_var_or_cst_t(var(vidx(op[2])))}, {});
     else throw std::runtime_error("unknown op " + k);
+    if (std::getenv("DOM2_TRACE")) { crab::outs() << "# " << op.str() << " --> " << pool[d] << "\n"; }
     bool same = true;
     for (unsigned i = 0; i < NP; i++) {
       std::string nd = dump(pool[i]);
@@ -441,6 +443,18 @@ std::string eval(const Sx &q) {
     out << " (" << ((b <= pool[i]) ? 1 : 0) << " " << ((pool[i] <= t) ? 1 : 0) << " " << (b.is_bottom() ? 1 : 0) << " " << (t.is_top() ? 1 : 0) << ")";
   }
   out << ")";
+  // probes: what a copy of each final value says after assume_bool(b, neg).  If i <= j was answered
+  // yes, the states of #i that satisfy the assumption must satisfy what probe(#j) says (monotonicity);
+  // this reaches information a value holds without exporting it (recorded implications).
+  out << " (probe";
+  for (unsigned j = 0; j < NP; j++)
+    for (unsigned k = 0; k < NB; k++)
+      for (unsigned neg = 0; neg < 2; neg++) {
+        Dom c(pool[j]);
+        c.assume_bool(var(NV + k), neg == 1);
+        out << " (" << j << " b" << k << " " << neg << " " << dump(c) << ")";
+      }
+  out << ")";
   return out.str();
 }
 
@@ -449,6 +463,13 @@ std::string eval(const Sx &q) {
 const bool BIG_OK = false;
 #else
 const bool BIG_OK = true;
+#endif
+
+// region_domain::expand raises CRAB_ERROR("... not implemented"): rename is generated instead
+#ifdef D2_RGN
+const bool NO_EXPAND = true;
+#else
+const bool NO_EXPAND = false;
 #endif
 
 // a type group: the variables a well-typed statement may mix
@@ -565,7 +586,8 @@ std::string gen_modify(Rng &r, unsigned d, unsigned x, bool big_ok) {
     if (g.vs.size() > 1) { // x receives a renamed / expanded other variable
       unsigned y = gpick(r, g);
       while (y == x) y = gpick(r, g);
-      o << " (forget " << d << " " << V(x) << ") (" << (r.coin() ? "rename1 " : "expand ") << d << " " << V(y) << " " << V(x) << ")";
+      // FixedTVPI does not implement rename (it only warns): not generated there
+      o << " (forget " << d << " " << V(x) << ") (" << (NO_EXPAND || (r.coin() && VDOM != 13 && VDOM != 53) ? "rename1 " : "expand ") << d << " " << V(y) << " " << V(x) << ")";
     } else o << " (assign " << d << " " << V(x) << " (lin " << r.range(-9, 9) << "))";
     break;
   }
@@ -739,7 +761,7 @@ std::string gen(Rng &r, const Args &a) {
     } else if (k < 62) {
       // the target must not be constrained: forget it first (the API requires a fresh name)
       // FixedTVPI does not implement rename (it only warns): not generated there
-      bool ren = (VDOM != 13 && VDOM != 53) && r.coin();
+      bool ren = NO_EXPAND || ((VDOM != 13 && VDOM != 53) && r.coin());
       if (r.below(4) == 0) { // Booleans
         unsigned x = r.below(NB), y = (x + 1 + r.below(NB - 1)) % NB;
         o << " (forget " << d << " " << B(y) << ") (" << (ren ? "rename1 " : "expand ") << d << " " << B(x) << " " << B(y) << ")";
